@@ -20,10 +20,11 @@ func init() {
 		Title:       "Numeric literals denote exactly the decimal number written",
 		Rule:        "every string up to n characters over {0 5 . e + - _ a x} that begins with a digit or '.', and long literals (integer / fraction parts of every length 0..40 in three digit patterns, exponents with up to 40 digits of which at most 3 significant, a separator at every single position of shorter literals): the reference number automaton of the statement decides reject or the exact decimal value; the implementation must agree on accept/reject, on the tree, and on the evaluated value in the contexts [L], [-L], [f(L)], [x?L:L], [(L,L)], [L,L]; distinct = distinct exact values (or 'reject')",
 		TrustedBase: []string{"internal/ref/tok.go number automaton", "internal/ref/dec.go"},
-		Assumptions: []string{"exponents beyond 9 significant digits are not enumerated"},
+		Assumptions: []string{"exponents of more than 17 significant digits are beyond every decimal implementation's range: for those the check only requires an error or a value that behaves like the number written (sign, side of 1, finite, equal to itself) - never a silently different number"},
 		Run:         runC12,
 	})
 	c12Lit = eng.NewKind(c, "literal", judgeLit)
+	c12Huge = eng.NewKind(c, "huge-exponent", judgeHugeExp)
 }
 
 // refEvalNum evaluates a reference tree made of number literals, prefix +/- and binary + -.
@@ -141,9 +142,7 @@ func judgeLit(c LitCase) *eng.Fail {
 		neg.Neg = !neg.Neg
 		neg = neg.RoundHE(34)
 		L := c.Lit
-		// outside the exponent range of 34-digit decimal arithmetic the negation overflows; that
-		// is the arithmetic's business (C04), not the literal's
-		negOK := want.IsZero() || (want.E+len(want.C.Text(10)) < 6000 && want.E > -6000)
+		negOK := true
 		for _, ctx := range []struct {
 			expr string
 			w    ref.Dec
@@ -167,6 +166,44 @@ func judgeLit(c LitCase) *eng.Fail {
 	}
 	return nil
 }
+
+// judgeHugeExp: a literal whose exponent has 18 or more significant digits. No implementation computes
+// with such numbers; what must not happen is a silently different number.
+func judgeHugeExp(c LitCase) *eng.Fail {
+	L := c.Lit
+	i := strings.IndexAny(L, "eE")
+	if i < 0 {
+		return eng.F("harness/case", "no exponent in %q", L)
+	}
+	zero := strings.Trim(L[:i], "0._") == ""
+	negExp := strings.HasPrefix(L[i+1:], "-")
+	o, perr := evalSrc("["+L+" > 1, "+L+" < 1, "+L+" > 0, "+L+" === 0, "+L+" === "+L+", finite("+L+") === "+L+", "+L+"]", map[string]interface{}{})
+	if perr != nil {
+		outcome("rejected at parse time")
+		return nil
+	}
+	if o.panicked {
+		return eng.F("C12/panic", "%s: panic: %s", L, o.panicMsg)
+	}
+	if o.err != nil {
+		outcome("evaluation error")
+		return nil
+	}
+	arr, _ := o.val.([]interface{})
+	if len(arr) != 7 {
+		return eng.F("C12/eval", "%s: %s", L, show(o.val))
+	}
+	want := []interface{}{!zero && !negExp, zero || negExp, !zero, zero, true, true}
+	for k := range want {
+		if arr[k] != want[k] {
+			return eng.F("C12/silently-different", "%s evaluates to %s without an error, and [L > 1, L < 1, L > 0, L === 0, L === L, finite(L) === L] = %s, the number written gives %v", L, show(arr[6]), show(arr[:6]), want)
+		}
+	}
+	outcome("carried")
+	return nil
+}
+
+var c12Huge *eng.Kind[LitCase]
 
 var litAlpha = []string{"0", "5", ".", "e", "+", "-", "_", "a", "x"}
 
@@ -227,7 +264,8 @@ func runC12(w *eng.W) {
 			return strings.Repeat("0", z) + strings.Repeat("5", n-z)
 		}
 	}
-	exps := []string{"", "e0", "e7", "E+12", "e-30", "e+005", "e-" + strings.Repeat("0", 37) + "123", "E" + strings.Repeat("0", 39) + "9"}
+	exps := []string{"", "e0", "e7", "E+12", "e-30", "e+005", "e-" + strings.Repeat("0", 37) + "123", "E" + strings.Repeat("0", 39) + "9",
+		"e6144", "e6145", "e-6143", "e-6177", "e7000", "E-7000", "e123456789", "e-123456789", "e9999999999999999", "e-9999999999999999"}
 	step := 1
 	if q {
 		step = 3
@@ -247,6 +285,26 @@ func runC12(w *eng.W) {
 						lit += "." + pat((p+1)%3, nf)
 					}
 					emit("long", lit+e)
+				}
+			}
+		}
+	}
+	// exponents of 18 to 25 digits around the edges of 64-bit integers
+	for _, mant := range []string{"1", "10", "123", "0.01", "0.1", "0", "0.0", "5.", ".5", "9999999999999999999999999999999999999", "1_0"} {
+		if !w.Take() {
+			continue
+		}
+		for _, e := range []string{"999999999999999999", "1000000000000000000", "1000000000000000001", "9223372036854775806", "9223372036854775807", "9223372036854775808", "9223372036854775809",
+			"18446744073709551615", "18446744073709551616", "4611686018427387904", "99999999999999999999", "1" + strings.Repeat("0", 24), strings.Repeat("0", 30) + "1000000000000000000"} {
+			for _, sign := range []string{"", "+", "-"} {
+				for _, E := range []string{"e", "E"} {
+					w.State(1)
+					w.Trans(7)
+					w.Trace(1)
+					w.Note("leg:huge-exponent", 1)
+					lit := mant + E + sign + e
+					w.Sample("huge-exponent", lit)
+					c12Huge.Do(w, LitCase{lit})
 				}
 			}
 		}
